@@ -69,14 +69,14 @@ def r15_1(ck):
                    'Store.generate no longer calls %s on the generated '
                    'node' % name)
     gp = seq[0][1]
-    ok = len(gp) == 2 and {A.unparse(A.arg_of(c, 0)) for c in gp} == \
-        {p[2], p[3]}
+    ok = len(gp) == 2 and {A.unparse(A.arg_of(c, 0, 'processes'))
+                           for c in gp} == {p[2], p[3]}
     ck.require(ok, 'R15.1', f, gp[0] if gp else '_generate_paths',
                'paths are generated for the processes and for the steps',
                'paths are not generated for both processes and steps')
     for c in gp:
-        ok = A.is_name(A.arg_of(c, 1), p[4]) and A.is_name(
-            A.arg_of(c, 2), p[5])
+        ok = A.is_name(A.arg_of(c, 1, 'flow'), p[4]) and A.is_name(
+            A.arg_of(c, 2, 'topology'), p[5])
         ck.require(ok, 'R15.1', f, c,
                    '_generate_paths receives (.., flow, topology)',
                    '_generate_paths is handed %s' % A.unparse(c), c)
